@@ -134,21 +134,25 @@ pub fn gen(prop: &str, seed: u64, index: u64, tier: Tier) -> Case {
     }
     let a = analyze(&project);
     let mut crng = rng_for(seed, prop, pi, "config");
-    let has_link = project.entries.iter().any(|e| matches!(e, Entry::Symlink { path, .. } if path == "lnk"));
-    let (mut inputs, mut recursive) = gen::gen_inputs_l(&mut crng, &a, prop == "C03", has_link);
+    let link_name: Option<String> = project.entries.iter().find_map(|e| match e {
+        Entry::Symlink { path, target } if path.starts_with("lnk") && !path.contains('/') && target == "sub" => Some(path.clone()),
+        _ => None,
+    });
+    let has_link = link_name.is_some();
+    let (mut inputs, mut recursive) = gen::gen_inputs_l(&mut crng, &a, prop == "C03", link_name.as_deref());
     // directories that hold links leading out of them: sources reached only through a link
     let link_dirs: Vec<String> = project
         .entries
         .iter()
         .filter_map(|e| match e {
-            Entry::Symlink { path, .. } if path != "lnk" => Some(tree::parent_rel(path).to_string()),
+            Entry::Symlink { path, .. } if Some(path) != link_name.as_ref() => Some(tree::parent_rel(path).to_string()),
             _ => None,
         })
         .collect();
     let mut link_dirs = link_dirs;
     if has_link {
         // the link itself as the input: what it leads to is what must be scanned
-        link_dirs.push("lnk".to_string());
+        link_dirs.push(link_name.clone().unwrap_or_default());
     }
     if !link_dirs.is_empty() && crng.chance(1, 3) {
         inputs = vec![crng.pick(&link_dirs).clone()];
@@ -289,7 +293,7 @@ pub fn run(case: &Case, ctx: &mut Ctx) -> CaseOutcome {
         // a directory link points somewhere else during the warm-up
         for e in v.entries.iter_mut() {
             if let Entry::Symlink { path, target } = e {
-                if path == "lnk" && target == "sub" {
+                if path.starts_with("lnk") && !path.contains('/') && target == "sub" {
                     *target = "lib".into();
                 }
             }
